@@ -5,6 +5,7 @@ import (
 	_ "verif/mc/checks/c02"
 	_ "verif/mc/checks/fmt3"
 	_ "verif/mc/checks/c13"
+	_ "verif/mc/checks/c19"
 	"verif/mc/engine"
 )
 
